@@ -8,6 +8,7 @@ must be under a module-level lock (lexically or in every caller) or be an
 idempotent memo.
 """
 import ast
+from ..visitors import _always_exits
 import copy
 from typing import Dict, List, Optional, Set, Tuple
 
@@ -237,22 +238,52 @@ def check(ctx):
     # --- R3: is_recursive reads its verdict where the checker wrote it
     ctx.rule("C20.R3", "is_recursive: the verdict is read from the dictionary the checker has filled - not from a separately fetched recursion_cache() result, which a cache reset (a registration made by another thread, set_size) makes a different object", floor=2)
     ir = model.func("apischema.recursion.is_recursive")
-    rets = [n for n in walk_no_nested(ir.node) if isinstance(n, ast.Return) and isinstance(n.value, ast.Subscript) and isinstance(n.value.value, ast.Name)]
-    ctx.require(len(rets) == 1, "is_recursive: `return <cache>[rec_key]` not found")
-    cvar = rets[0].value.value.id
+    all_rets = [n for n in walk_no_nested(ir.node) if isinstance(n, ast.Return) and isinstance(n.value, ast.Subscript)]
     runs = [c for c in walk_no_nested(ir.node) if isinstance(c, ast.Call) and isinstance(c.func, ast.Attribute) and c.func.attr in ("visit_with_conv", "visit")]
     ctx.require(len(runs) == 1, "is_recursive: the run of the recursion checker was not found")
     run = runs[0]
+    par20 = {c_: p_ for p_ in ast.walk(ir.node) for c_ in ast.iter_child_nodes(p_)}
+
+    def after_run(r) -> bool:
+        """r is executed after the run of the checker: it follows (an enclosing statement of) the run in some statement list."""
+        chain = []
+        cur = run
+        while cur is not None and cur is not ir.node:
+            chain.append(cur)
+            cur = par20.get(cur)
+        for blk_owner in ast.walk(ir.node):
+            for field in ("body", "orelse", "finalbody"):
+                stmts = getattr(blk_owner, field, None)
+                if not isinstance(stmts, list):
+                    continue
+                idx = [i for i, s_ in enumerate(stmts) if any(s_ is c_ for c_ in chain)]
+                if idx and any(any(x is r for x in ast.walk(s_)) for s_ in stmts[idx[0] + 1:]):
+                    # ... unless the branch that holds the run always leaves the function before reaching the rest of this list
+                    holder = stmts[idx[0]]
+                    leaves = False
+                    if isinstance(holder, ast.If):
+                        for branch in (holder.body, holder.orelse):
+                            if any(any(x is run for x in ast.walk(s2)) for s2 in branch) and _always_exits(branch):
+                                leaves = True
+                    if not leaves:
+                        return True
+        return False
+    rets = [r for r in all_rets if after_run(r)]
+    ctx.require(len(rets) >= 1, "is_recursive: `return <cache>[rec_key]` after the run of the checker not found")
     ck = run.func.value
-    shares_arg = isinstance(ck, ast.Call) and any(isinstance(a, ast.Name) and a.id == cvar for a in list(ck.args) + [k.value for k in ck.keywords])
-    reread = False
-    if isinstance(ck, ast.Name):
-        ctor = [n for n in walk_no_nested(ir.node) if isinstance(n, ast.Assign) and norm(n.targets[0]) == ck.id and isinstance(n.value, ast.Call)]
-        shares_arg = any(isinstance(a, ast.Name) and a.id == cvar for n in ctor for a in list(n.value.args) + [k.value for k in n.value.keywords])
-        reread = any(isinstance(n, ast.Assign) and norm(n.targets[0]) == cvar and norm(n.value) == f"{ck.id}._cache" and n.lineno > run.lineno and n.lineno < rets[0].lineno for n in walk_no_nested(ir.node))
-    ctx.check(shares_arg or reread, "C20.R3", f"{ir.qualname}:same-dict", None,
-              f"`{short(rets[0], 40)}` reads `{cvar}`, fetched with recursion_cache() by is_recursive, while the checker writes into the dictionary it fetched itself: when the caches are reset between the two fetches (CacheAwareDict.__setitem__ in another thread while this one waits for the lock; cache.set_size(0)) the key is missing - KeyError out of deserialize / serialize",
-              ir, rets[0], detail=f"{cvar} = <checker>._cache after the run (or the dictionary is handed to the checker)")
+    for r3 in rets:
+        base = r3.value.value
+        cvar = norm(base)
+        shares_arg = isinstance(base, ast.Name) and isinstance(ck, ast.Call) and any(isinstance(a, ast.Name) and a.id == cvar for a in list(ck.args) + [k.value for k in ck.keywords])
+        reread = False
+        if isinstance(ck, ast.Name):
+            ctor = [n for n in walk_no_nested(ir.node) if isinstance(n, ast.Assign) and norm(n.targets[0]) == ck.id and isinstance(n.value, ast.Call)]
+            shares_arg = isinstance(base, ast.Name) and any(isinstance(a, ast.Name) and a.id == cvar for n in ctor for a in list(n.value.args) + [k.value for k in n.value.keywords])
+            assigns = [n for n in walk_no_nested(ir.node) if isinstance(n, ast.Assign) and norm(n.targets[0]) == cvar and n.lineno > run.lineno and n.lineno <= r3.lineno]
+            reread = cvar == f"{ck.id}._cache" or (bool(assigns) and norm(max(assigns, key=lambda n: n.lineno).value) == f"{ck.id}._cache")
+        ctx.check(shares_arg or reread, "C20.R3", f"{ir.qualname}:same-dict", None,
+                  f"`{short(r3, 40)}` reads `{cvar}`, fetched with recursion_cache() by is_recursive, while the checker writes into the dictionary it fetched itself: when the caches are reset between the two fetches (CacheAwareDict.__setitem__ in another thread while this one waits for the lock; cache.set_size(0)) the key is missing - KeyError out of deserialize / serialize",
+                  ir, r3, detail=f"{cvar} = <checker>._cache after the run (or the dictionary is handed to the checker)")
     inside = any(any(x is rets[0] for x in ast.walk(b)) and any(x is run for x in ast.walk(b)) for b in with_lock_blocks(model, ir, locks))
     ctx.check(inside, "C20.R3", f"{ir.qualname}:under-lock", None, "the run of the checker and the read of its verdict are not inside the same `with <lock>` block", ir, rets[0], detail="with _recursion_lock: run; return")
 
